@@ -390,8 +390,8 @@ impl Property for C19 {
     }
     fn cases(&self, tier: Tier) -> usize {
         match tier {
-            Tier::Quick => 3000,
-            Tier::Thorough => 60000,
+            Tier::Quick => 15000,
+            Tier::Thorough => 90000,
         }
     }
     fn tape_len(&self, _t: Tier) -> usize {
